@@ -190,7 +190,7 @@ CLAIMED = {
         "(C10_two_objects_refuted, known finding F13). Tied to the code on every run: all respecting one-object histories up to 4 (5) "
         "calls, random histories up to 14 calls over one and two objects, each in a child process with a time limit (crash and hang are "
         "observations), every return value compared in Coq; whole runs of random scripts (three engines, four init_state_processing modes, "
-        "amounts below one molecule) must return and complete after floor(t_max/dt)+1 iterations.",
+        "amounts below one molecule) must return and complete after floor(t_max/dt)+1 iterations. Two or more engine objects used in turn (at most one live simulation at a time) refine the specification too (C10_exclusive_sessions), and simulate_script (Model/Simulate.v: set-up, run until completion with optional progress queries, fetch the output, finalize) keeps that discipline: for every sequence of simulate calls on any engine objects the implementation model returns the specification's outcomes, reaches no undefined behaviour, and every call returns what it would return alone in a fresh process (C10_simulate_sequence, C10_simulate_isolated); the calls simulate_script really makes, recorded by a proxy engine over sequences of 1-4 calls on one or two engines, are compared with the modelled history and the specification's outcomes.",
         "Trusted: Coq kernel + VM; the hand-written lifecycle models (the simulation inside is the sampling machine of C09 with the "
         "chemical state abstracted) tied by exhaustive-to-length-4 + sampled correspondence; run(ms) is exercised with ms = 0 only (one "
         "iteration; wall-clock slicing is C08's subject); non-termination is observed as 'no return within 12-15 s'; Gillespie runs are only "
